@@ -111,12 +111,27 @@ func (p *Prog) funcByName(name string) *ssa.Function {
 // callerNames lists the functions of the analysed module that may call fn.
 func (p *Prog) callerNames(fn *ssa.Function) []string {
 	set := map[string]bool{}
-	for _, e := range p.callersOf(fn) {
-		caller := e.Caller.Func
-		if inPkg(caller, p.SPkg) || (p.SCmd != nil && inPkg(caller, p.SCmd)) {
+	var add func(f *ssa.Function, depth int)
+	add = func(f *ssa.Function, depth int) {
+		for _, e := range p.callersOf(f) {
+			caller := e.Caller.Func
+			if !(inPkg(caller, p.SPkg) || (p.SCmd != nil && inPkg(caller, p.SCmd))) {
+				continue
+			}
+			top := caller
+			for top.Parent() != nil {
+				top = top.Parent()
+			}
+			// a function the symbol index does not know is a helper that was split off after the review: it stands for
+			// the functions that call it (a reviewed reason about "the callers" is about where control comes from)
+			if _, known := recFile[FuncName(top)]; !known && len(recFile) > 0 && depth < 2 && caller != fn && len(p.callersOf(top)) > 0 {
+				add(top, depth+1)
+				continue
+			}
 			set[FuncName(caller)] = true
 		}
 	}
+	add(fn, 0)
 	return sortedKeys(set)
 }
 
